@@ -159,9 +159,95 @@ func runLinks(c *core.Case, st *core.CaseStats) {
 	}
 }
 
+// dfs: the result list TrieDfs.tla computes for PrefixSearch / FuzzySearch - the explicit-stack enumeration with the
+// shared byte buffer, step by step - in the order the loops produce it. The real function must return that list;
+// the same strings in another order (PrefixSearch) or another list of inserted patterns (FuzzySearch, for which the
+// property only asks that every result is an inserted pattern) is drift, anything else a violation.
+func runDfs(c *core.Case, st *core.CaseStats) {
+	sym := []string{"", "a", "中", "é", "😀"}
+	conv := func(xs []int) string {
+		var b strings.Builder
+		for _, x := range xs {
+			b.WriteString(sym[x])
+		}
+		return b.String()
+	}
+	key := conv(core.RawInts(c.S))
+	ps := make([]string, len(c.A))
+	for i, r := range c.A {
+		ps[i] = conv(core.RawInts(r))
+	}
+	var rawOut [][]int
+	json.Unmarshal(c.Out, &rawOut)
+	want := make([]string, len(rawOut))
+	for i, r := range rawOut {
+		want[i] = conv(r)
+	}
+	var mode string
+	json.Unmarshal(c.X, &mode)
+	n := len(ps)
+	all := make([]int, n)
+	rev := make([]int, 0, n+2)
+	for i := range all {
+		all[i] = i + 1
+		rev = append(rev, n-i)
+	}
+	rev = append(rev, n, 0)
+	if len(want) > 1 {
+		st.Nontrivial++
+	}
+	fn := "PrefixSearch"
+	if mode == "fuzzy" {
+		fn = "FuzzySearch"
+	}
+	for _, sc := range [][][]int{{all}, {rev}, {all, {}}} {
+		in := map[string]interface{}{"patterns": ps, "key": key, "build_schedule": sc}
+		var got []string
+		st.Calls++
+		msg, p, hung := core.GuardTimed(func() {
+			t := build(ps, sc)
+			if mode == "fuzzy" {
+				got = t.FuzzySearch(key)
+			} else {
+				got = t.PrefixSearch(key)
+			}
+		}, 20*time.Second)
+		if hung || p {
+			kind := "panic"
+			if hung {
+				kind = "hang"
+			}
+			st.Add(core.Mismatch{Fn: fn, Kind: kind, Case: c, Input: in, Expected: "returns", Actual: msg})
+			continue
+		}
+		if eq(got, want) {
+			continue
+		}
+		kind := "drift"
+		if mode == "fuzzy" {
+			for _, g := range got {
+				ok := false
+				for _, q := range ps {
+					ok = ok || g == q
+				}
+				if !ok {
+					kind = "value"
+				}
+			}
+		} else if !eq(sortedCopy(got), sortedCopy(want)) {
+			kind = "value"
+		}
+		st.Add(core.Mismatch{Fn: fn, Kind: kind, Case: c, Input: in, Expected: want, Actual: got})
+	}
+}
+
 func run(c *core.Case, st *core.CaseStats, seed int64) {
 	if c.Fn == "links" {
 		runLinks(c, st)
+		return
+	}
+	if c.Fn == "dfs" {
+		runDfs(c, st)
 		return
 	}
 	var scheds [][][]int
